@@ -301,8 +301,11 @@ def run_loop(ctx, broken, ps):
     n = 250 if ctx.quick() else 3000
     scripts, modes = [], []
     for k in range(n):
-        scripts.append(c02.gen_script(ctx.rng, ctx.rng.range(3, 14), mode="stepper",
-                                      starved=(k % 4 != 3)))
+        if k % 5 == 2:
+            scripts.append(c02.gen_boundary_script(ctx.rng))
+        else:
+            scripts.append(c02.gen_script(ctx.rng, ctx.rng.range(3, 14), mode="stepper",
+                                          starved=(k % 4 != 3)))
         modes.append("stepper")
     model_ok = ps["model_ok"] and os.path.exists(vlib.model_exe("C02"))
     r = c02.run_all(ctx, exe, scripts, modes, model_ok, key_prefix="loop-")
